@@ -66,7 +66,7 @@ def install(ctx, repo, probes):
               "shift/basic", "shift/ext", "shift/expanded", "shift/no-zone",
               "shift/utc", "shift/negative-offset", "shift/multi-offset",
               "shift/nominal-offset", "shift/ref-env", "shift/ref-option",
-              "shift/print-format", "diff/plain", "diff/offsets",
+              "shift/print-format", "shift/parse-format", "diff/plain", "diff/offsets",
               "diff/as-total", "diff/negative", "rec/forward", "rec/reverse",
               "total/duration", "malformed/exit", "child/ok",
               "child/malformed"):
@@ -565,6 +565,39 @@ GARBAGE = ["garbage", "2000-13-01", "2000-02-30T00Z", "20000101T25", "T06",
            "2000-01-01 00:00", "R0/2000/P1D", "R/P1D/P1D", "1e3"]
 
 
+PARSE_FORMATS = (("%d/%m/%Y %H:%M:%S", "{d:02d}/{m:02d}/{y:04d} "
+                  "{H:02d}:{M:02d}:{S:02d}"),
+                 ("%Y%j%H%M", None), ("%H:%M:%S %Y-%m-%d",
+                                       "{H:02d}:{M:02d}:{S:02d} "
+                                       "{y:04d}-{m:02d}-{d:02d}"))
+
+
+def make_parse_format(rng, mode):
+    """a custom --parse-format over supported directives: the output uses
+    the same format"""
+    y = gen.rand_year(rng, 1000, 8999)
+    rd = gen.rand_rd(rng, mode, y, bias=0.6)
+    yy, mm, dd = R.rd_to_ymd(mode, rd)
+    H, M, S = rng.randrange(24), rng.randrange(60), rng.randrange(60)
+    fmt, tmpl = rng.choice([pf for pf in PARSE_FORMATS if pf[1]])
+    text = tmpl.format(y=yy, m=mm, d=dd, H=H, M=M, S=S)
+    pt = {"rep": "cal", "date": (yy, mm, dd), "sod": F(H * 3600 + M * 60 + S),
+          "off": 0}
+    otext, dt = spell_offset(rng, {"tform": "hms", "kind": "complete"})
+    res = R.pt_add(mode, pt, dt)
+    if not 1000 <= res["date"][0] <= 8999:
+        return make_parse_format(rng, mode)
+    sod = int(res["sod"])
+    out = tmpl.format(y=res["date"][0], m=res["date"][1], d=res["date"][2],
+                      H=sod // 3600, M=sod % 3600 // 60, S=sod % 60)
+    argv = [rng.choice(("--parse-format", "-p")), fmt, text,
+            "--offset=" + otext, "--calendar", mode]
+    return {"op": "run", "argv": argv, "env": {}, "local": [0, 0],
+            "expect": {"stdout": out + "\n"},
+            "classes": ["shift/parse-format", "calendar/" + mode],
+            "nontrivial": True}
+
+
 def make_malformed(rng):
     good = "2000-01-01T00:00:00Z"
     g = rng.choice(GARBAGE)
@@ -582,6 +615,16 @@ def make_malformed(rng):
                                                "-", "P-1D", "P1D2Y"))]
     elif v < 0.85:
         argv = [good, good, "--offset2", "nonsense"]
+    elif v < 0.89:
+        # custom parse formats (library directives and C-library ones)
+        fmt, text = rng.choice((("%d %b %Y", "31 Foo 2019"),
+                                ("%a %d %b %Y", "Xyz 31 Jan 2019"),
+                                ("%d/%m/%Y", "31-12-2019"),
+                                ("%Y%m%d", "2019-12-31"),
+                                ("%d %b %Y", "garbage"),
+                                ("%Y-%j", "2019-400")))
+        argv = ["-p", fmt, text] if rng.random() < 0.6 else \
+            ["--parse-format=" + fmt, good.replace("T", " "), text]
     elif v < 0.92:
         argv = ["--as-total=H", rng.choice(("garbage", "2000", "PXH"))]
     else:
@@ -706,8 +749,10 @@ def workload(ctx, repo):
             case = make_diff(rng, mode)
         elif v == 14:
             case = make_total(rng)
-        elif v < 18:
+        elif v < 17:
             case = make_rec(rng, mode)
+        elif v == 17:
+            case = make_parse_format(rng, mode)
         else:
             case = make_malformed(rng)
         ctx.case = case
